@@ -232,3 +232,16 @@ GAS_VALUE = {"zero": 0, "base": 2, "verylow": 3, "low": 5, "mid": 8, "high": 10}
 # PushDeployTimeAddress = 1 + 20; PushImmutable = 1 + 32; a tag itself emits the JUMPDEST that is listed separately.
 ASM_ITEM_SIZE = {"PUSH [tag]": 3, "PUSH data": 3, "PUSH [$]": 3, "PUSH #[$]": 5, "PUSHSIZE": 5, "PUSHLIB": 21, "PUSHDEPLOYADDRESS": 21, "PUSHIMMUTABLE": 33,
                  "PUSH0": 1, "tag": 0}
+
+
+# ---- effects (for C01.e) ---------------------------------------------------------------------------------------------------
+# Opcodes whose execution is externally visible or changes state other than stack / the memory-storage model of the specification:
+# they can neither be dropped when their result is unused nor be moved.  (Yellow paper, appendix H; EIP-1153, EIP-5656, EIP-6780.)
+EXTERNALLY_VISIBLE = {
+    "CALL", "CALLCODE", "DELEGATECALL", "STATICCALL", "CREATE", "CREATE2", "LOG0", "LOG1", "LOG2", "LOG3", "LOG4",
+    "CALLDATACOPY", "CODECOPY", "EXTCODECOPY", "RETURNDATACOPY", "MCOPY", "TSTORE", "SELFDESTRUCT", "SUICIDE",
+    "RETURN", "REVERT", "STOP", "INVALID", "ASSERTFAIL", "JUMP", "JUMPI",
+}
+# Opcodes whose *result* depends on where in the block they execute (not on stack, memory bytes or storage): gas left, program counter,
+# number of memory words touched so far.
+POSITION_DEPENDENT = {"GAS", "PC", "MSIZE"}
